@@ -2,12 +2,16 @@
 #pragma once
 #include "case.hh"
 #include "oracle.hh"
+#include <functional>
 
 struct RunnerOpts {
     bool verbose = false;
     bool record = true;          // keep decision logs in the outcome
     long baseline_steps = 0;     // E_serial of this configuration (0: unknown -> static budget)
     bool monitors = true;
+    // C18 split probes: called once, before operation number between_after + 1 of the first repetition (other library calls are made there)
+    std::function<void()> between;
+    int between_after = -1;
 };
 
 void runner_install();            // once per process (sim::install, die callback, fds)
